@@ -257,15 +257,14 @@ fn build_timespan(pair: Pair<Rule>) -> Result<ts::TimeSpan> {
         Some(pair) => (false, build_extended_time(pair)?),
     };
 
-    let (open_end, repeats) = match pairs.next().map(|x| x.as_rule()) {
+    let (open_end, repeats) = match pairs.next() {
         None => (open_end, None),
-        Some(Rule::timespan_plus) => (true, None),
-        Some(Rule::minute) => (open_end, Some(build_minute(pairs.next().unwrap()))),
-        Some(Rule::hour_minutes) => (
-            open_end,
-            Some(build_hour_minutes_as_duration(pairs.next().unwrap())),
-        ),
-        Some(other) => unexpected_token(other, Rule::timespan),
+        Some(pair) => match pair.as_rule() {
+            Rule::timespan_plus => (true, None),
+            Rule::minute => (open_end, Some(build_minute(pair))),
+            Rule::hour_minutes => (open_end, Some(build_hour_minutes_as_duration(pair))),
+            other => unexpected_token(other, Rule::timespan),
+        },
     };
 
     assert!(pairs.next().is_none());
